@@ -291,7 +291,7 @@ class Check:
         return self.coq is not None and not self.obl[3] and not self.coq["translate_error"]
 
     # -- correspondence side
-    def compare(self, stream, cases, variant="plain", classify=None, nontrivial=None, keep=3):
+    def compare(self, stream, cases, variant="plain", classify=None, nontrivial=None, keep=3, inspect=None):
         """Run cases on impl and model; returns list of (case, impl_lines, model_lines) that differ."""
         impl = run_impl(cases, variant)
         model = run_model(cases)
@@ -308,6 +308,8 @@ class Check:
             sl = [l for l in model.get(cid, []) if l.startswith("S ")]
             fl = [l.split(" ", 2)[2] for l in model.get(cid, []) if l.startswith("F ")]
             n += 1
+            if inspect is not None:
+                inspect(c, il, ml)
             if nontrivial is None or nontrivial(c, il):
                 self.nontrivial.add(hashlib.md5(re.sub(r"\bid=\S+ ?", "", c).encode()).digest())
             if len(self.samples) < keep or (n % max(1, len(cases) // 3) == 0 and len(self.samples) < 12):
